@@ -426,6 +426,386 @@ fn family_finals(n: usize, opts: &Opts, sink: Sink) {
     }
 }
 
+// ------------------------------------------------------------------------------------------ C08
+
+fn mk(tag: &str) -> Stmt {
+    Stmt::Mark(vec![tag.to_string()])
+}
+
+fn c08_conds() -> Vec<(&'static str, Expr)> {
+    vec![("T", Expr::VarLt("v".into(), 100)), ("F", Expr::VarEq("v".into(), -1)), ("E", Expr::Bad)]
+}
+
+/// (label, statement, is_error_site)
+fn c08_leaves() -> Vec<(&'static str, Stmt)> {
+    vec![
+        ("mark", mk("L")),
+        ("raise", Stmt::Raise("r1".into())),
+        ("assign-ok", Stmt::Assign("v".into(), Expr::Int(7))),
+        ("assign-undeclared", Stmt::Assign("nodecl".into(), Expr::Int(1))),
+        ("assign-readonly", Stmt::Assign("_sessionid".into(), Expr::Int(1))),
+        ("assign-bad-expr", Stmt::Assign("v".into(), Expr::Bad)),
+        ("assign-bad-syntax", Stmt::Assign("v".into(), Expr::BadSyntax)),
+        ("log-ok", Stmt::Log(Expr::Var("v".into()))),
+        ("log-bad", Stmt::Log(Expr::Bad)),
+        ("script-bad", Stmt::Script(Expr::Bad)),
+        ("mark-bad-arg", Stmt::MarkE(vec!["arg".into()], Expr::Bad)),
+        ("send-internal", Stmt::SendInternal("r2".into())),
+    ]
+}
+
+fn c08_subs(rich: bool) -> Vec<(&'static str, Block)> {
+    let mut v: Vec<(&'static str, Block)> = vec![
+        ("[]", vec![]),
+        ("[m]", vec![mk("in")]),
+        ("[err,m]", vec![Stmt::Assign("nodecl".into(), Expr::Int(1)), mk("after-err")]),
+    ];
+    if rich {
+        v.push(("[m,raise]", vec![mk("in2"), Stmt::Raise("r3".into())]));
+        v.push(("[logbad,m]", vec![Stmt::Log(Expr::Bad), mk("after-logbad")]));
+    }
+    v
+}
+
+/// (label with the kind of construct that contains the first possible error site, item)
+fn c08_items(thorough: bool) -> Vec<(String, Stmt)> {
+    let mut out: Vec<(String, Stmt)> = vec![];
+    for (l, s) in c08_leaves() {
+        out.push((format!("leaf:{}", l), s));
+    }
+    let subs = c08_subs(thorough);
+    let conds = c08_conds();
+    for (cn, c) in &conds {
+        for (s1n, s1) in &subs {
+            out.push((format!("if:{}:{}", cn, s1n), Stmt::If { branches: vec![(c.clone(), s1.clone())], els: None }));
+            for (s2n, s2) in &subs {
+                out.push((
+                    format!("if-else:{}:{}:{}", cn, s1n, s2n),
+                    Stmt::If { branches: vec![(c.clone(), s1.clone())], els: Some(s2.clone()) },
+                ));
+                for (c2n, c2) in &conds {
+                    out.push((
+                        format!("if-elseif:{}:{}:{}:{}", cn, s1n, c2n, s2n),
+                        Stmt::If { branches: vec![(c.clone(), s1.clone()), (c2.clone(), s2.clone())], els: None },
+                    ));
+                    if thorough || (s1n == &"[m]") {
+                        for (s3n, s3) in &subs {
+                            out.push((
+                                format!("if-elseif-else:{}:{}:{}:{}:{}", cn, s1n, c2n, s2n, s3n),
+                                Stmt::If {
+                                    branches: vec![(c.clone(), s1.clone()), (c2.clone(), s2.clone())],
+                                    els: Some(s3.clone()),
+                                },
+                            ));
+                        }
+                    }
+                }
+            }
+        }
+    }
+    let arrays: Vec<(&str, Expr)> = vec![
+        ("empty", Expr::Arr(vec![])),
+        ("one", Expr::Arr(vec![5])),
+        ("two", Expr::Arr(vec![5, 6])),
+        ("bad", Expr::Bad),
+        ("notarray", Expr::Int(3)),
+    ];
+    for (an, a) in &arrays {
+        for (sn, sb) in &subs {
+            for idx in [None, Some("ix".to_string())] {
+                let mut body = sb.clone();
+                body.push(Stmt::MarkE(vec!["item".into()], Expr::Var("it".into())));
+                if idx.is_some() {
+                    body.push(Stmt::MarkE(vec!["index".into()], Expr::Var("ix".into())));
+                }
+                out.push((
+                    format!("foreach:{}:{}:{}", an, sn, idx.is_some()),
+                    Stmt::Foreach { array: a.clone(), item: "it".into(), index: idx.clone(), body },
+                ));
+            }
+        }
+    }
+    if thorough {
+        // nesting depth 2: if inside foreach inside if, with an error at each level
+        for (cn, c) in &conds {
+            for (an, a) in &arrays {
+                for (ln, l) in c08_leaves() {
+                    out.push((
+                        format!("nest2:{}:{}:{}", cn, an, ln),
+                        Stmt::If {
+                            branches: vec![(
+                                c.clone(),
+                                vec![
+                                    mk("n0"),
+                                    Stmt::Foreach {
+                                        array: a.clone(),
+                                        item: "it".into(),
+                                        index: None,
+                                        body: vec![
+                                            Stmt::If { branches: vec![(Expr::VarLt("it".into(), 6), vec![l.clone(), mk("n2")])], els: Some(vec![mk("n2e")]) },
+                                            mk("n1"),
+                                        ],
+                                    },
+                                    mk("n0b"),
+                                ],
+                            )],
+                            els: Some(vec![mk("n-else")]),
+                        },
+                    ));
+                }
+            }
+        }
+    }
+    out
+}
+
+/// hosts: 0 onentry(s0) 1 onexit(s0) 2 transition 3 <initial> of p 4 history default 5 onentry(p)
+fn c08_doc(block: Block, host: usize) -> Doc {
+    let mut d = Doc::new();
+    d.nodes[0].data.push(("v".into(), Some(Expr::Int(0))));
+    let s0 = d.add(0, "s0", Kind::State);
+    let p = d.add(0, "p", Kind::State);
+    let h = d.add(p, "h", Kind::HistShallow);
+    let p1 = d.add(p, "p1", Kind::State);
+    let p2 = d.add(p, "p2", Kind::State);
+    // every host is followed by a second block / later content that must still run
+    if host == 0 {
+        d.nodes[s0].onentry.push(block.clone());
+    }
+    d.nodes[s0].onentry.push(vec![mk("s0-entry-2nd-block")]);
+    if host == 1 {
+        d.nodes[s0].onexit.push(block.clone());
+    }
+    d.nodes[s0].onexit.push(vec![mk("s0-exit-2nd-block")]);
+    d.nodes[s0].trans.push(Trans {
+        events: vec!["go".into()],
+        cond: None,
+        targets: vec![p],
+        internal: false,
+        content: if host == 2 { block.clone() } else { vec![mk("t-go")] },
+    });
+    d.nodes[s0].trans.push(Trans {
+        events: vec!["hist".into()],
+        cond: None,
+        targets: vec![h],
+        internal: false,
+        content: vec![mk("t-hist")],
+    });
+    d.nodes[p].initial_elem = Some((vec![p1], if host == 3 { block.clone() } else { vec![mk("p-initial")] }));
+    if host == 5 {
+        d.nodes[p].onentry.push(block.clone());
+    }
+    d.nodes[p].onentry.push(vec![mk("p-entry-2nd-block")]);
+    d.nodes[h].trans.push(Trans {
+        events: vec![],
+        cond: None,
+        targets: vec![p2],
+        internal: false,
+        content: if host == 4 { block.clone() } else { vec![mk("h-default")] },
+    });
+    d.nodes[p1].onentry.push(vec![mk("p1-entry")]);
+    d.nodes[p2].onentry.push(vec![mk("p2-entry")]);
+    for s in [p1, p2] {
+        d.nodes[s].trans.push(Trans {
+            events: vec!["back".into()],
+            cond: None,
+            targets: vec![s0],
+            internal: false,
+            content: vec![],
+        });
+    }
+    // internal events are observable: error.execution and the raised events
+    d.nodes[0].children.len();
+    d
+}
+
+fn family_content(thorough: bool, opts: &Opts, sink: Sink) {
+    let items = c08_items(thorough);
+    let hosts: Vec<usize> = vec![0, 1, 2, 3, 4, 5];
+    for (label, it) in &items {
+        for h in &hosts {
+            // construct kind = text before the first ':' ; error-site hint for signatures
+            let kind = label.split(':').take(2).collect::<Vec<_>>().join(":");
+            sink(Item {
+                label: format!("content single {} host{}", label, h),
+                doc: c08_doc(vec![it.clone()], *h),
+                opts: opts.clone(),
+                sig_hint: format!(":{}", kind),
+            });
+            sink(Item {
+                label: format!("content framed {} host{}", label, h),
+                doc: c08_doc(vec![mk("pre"), it.clone(), mk("post")], *h),
+                opts: opts.clone(),
+                sig_hint: format!(":{}", kind),
+            });
+        }
+    }
+    // pairs of leaves
+    let leaves = c08_leaves();
+    for (an, a) in &leaves {
+        for (bn, b) in &leaves {
+            for h in [0usize, 2] {
+                sink(Item {
+                    label: format!("content pair {} {} host{}", an, bn, h),
+                    doc: c08_doc(vec![a.clone(), b.clone(), mk("post")], h),
+                    opts: opts.clone(),
+                    sig_hint: format!(":leaf:{}", an),
+                });
+            }
+        }
+    }
+}
+
+// ------------------------------------------------------------------------------------------ C09
+
+/// marks that evaluate In(x) for every state x at this content position
+fn in_marks(d: &Doc, tag: &str) -> Block {
+    let mut b = vec![];
+    for n in 1..d.nodes.len() {
+        if !d.is_history(n) {
+            let nm = d.nodes[n].name.clone();
+            b.push(Stmt::MarkE(vec!["in".into(), tag.to_string(), nm.clone()], Expr::In(nm)));
+        }
+    }
+    b
+}
+
+fn family_in_marks(n: usize, opts: &Opts, sink: Sink) {
+    for f in shapes_upto(n) {
+        let mut d = build(&f, &[]);
+        for s in 1..d.nodes.len() {
+            let nm = d.nodes[s].name.clone();
+            let en = in_marks(&d, &format!("en:{}", nm));
+            let ex = in_marks(&d, &format!("ex:{}", nm));
+            d.nodes[s].onentry.push(en);
+            d.nodes[s].onexit.push(ex);
+        }
+        let cands = candidates(&d, true, false, false);
+        for (i, c) in cands.iter().enumerate() {
+            add_trans(&mut d, c, Some(&format!("t{}", i)), None, "");
+            let last = d.nodes[c.src].trans.len() - 1;
+            let tm = in_marks(&d, &format!("t:{}", i));
+            d.nodes[c.src].trans[last].content = tm;
+        }
+        sink(Item {
+            label: format!("in-marks {}", shape_str(&f)),
+            doc: d,
+            opts: opts.clone(),
+            sig_hint: String::new(),
+        });
+    }
+}
+
+/// guards In(x) / !In(x) on every candidate transition, for a data model that supports content
+/// (marks present) or not (null data model: the selected transitions are the observation)
+fn family_in_guards(n: usize, datamodel: &str, opts: &Opts, sink: Sink) {
+    for f in shapes_upto(n) {
+        if count_states(&f) < 2 {
+            continue;
+        }
+        let d0 = {
+            let mut d = build(&f, &[]);
+            if datamodel != "null" {
+                std_marks(&mut d);
+            }
+            d.datamodel = datamodel.to_string();
+            d
+        };
+        let states: Vec<Nx> = (1..d0.nodes.len()).collect();
+        for guard_state in &states {
+            for neg in [false, true] {
+                let mut d = d0.clone();
+                let cands = candidates(&d, false, false, false);
+                let gname = d.nodes[*guard_state].name.clone();
+                for (i, c) in cands.iter().enumerate() {
+                    let cond = if neg && datamodel != "null" { Expr::NotIn(gname.clone()) } else { Expr::In(gname.clone()) };
+                    // every second candidate guarded, the others unguarded movers
+                    let guard = if i % 2 == 0 { Some(cond) } else { None };
+                    add_trans(&mut d, c, Some(&format!("t{}", i)), guard, "");
+                    if datamodel == "null" {
+                        let last = d.nodes[c.src].trans.len() - 1;
+                        d.nodes[c.src].trans[last].content = vec![];
+                    }
+                }
+                if neg && datamodel == "null" {
+                    continue;
+                }
+                sink(Item {
+                    label: format!("in-guards {} {} In({}) neg={}", datamodel, shape_str(&f), gname, neg),
+                    doc: d,
+                    opts: opts.clone(),
+                    sig_hint: String::new(),
+                });
+            }
+        }
+    }
+}
+
+/// data binding: data at root / state / nested state, early and late binding, re-entry, modification
+fn family_binding(opts: &Opts, sink: Sink) {
+    for late in [false, true] {
+        for variant in 0..4 {
+            let mut d = Doc::new();
+            d.late_binding = late;
+            d.nodes[0].data.push(("r".into(), Some(Expr::Int(1))));
+            let a = d.add(0, "a", Kind::State);
+            let b = d.add(0, "b", Kind::State);
+            let b1 = d.add(b, "b1", Kind::State);
+            let b2 = d.add(b, "b2", Kind::State);
+            let c = d.add(0, "c", Kind::Parallel);
+            let c1 = d.add(c, "c1", Kind::State);
+            let c2 = d.add(c, "c2", Kind::State);
+            d.nodes[a].data.push(("da".into(), Some(Expr::Int(2))));
+            d.nodes[b].data.push(("db".into(), Some(Expr::Int(3))));
+            d.nodes[b1].data.push(("db1".into(), Some(Expr::Str("x".into()))));
+            d.nodes[b2].data.push(("db2".into(), None));
+            d.nodes[c1].data.push(("dc1".into(), Some(Expr::Int(5))));
+            d.nodes[c2].data.push(("dc2".into(), Some(Expr::Int(6))));
+            let vars = ["r", "da", "db", "db1", "db2", "dc1", "dc2"];
+            let reads = |tag: &str| -> Block {
+                vars.iter()
+                    .map(|v| Stmt::MarkE(vec!["val".into(), tag.to_string(), v.to_string()], Expr::Var(v.to_string())))
+                    .collect()
+            };
+            // the global script runs before any state is entered; whether top-level data already have
+            // their values then under late binding is not stated by the property: early binding only
+            if variant % 2 == 1 && !late {
+                d.script = Some(Expr::Raw("r ?= 1".into()));
+            }
+            for s in [a, b, b1, b2, c, c1, c2] {
+                let nm = d.nodes[s].name.clone();
+                d.nodes[s].onentry.push(reads(&format!("en:{}", nm)));
+            }
+            let mut t = |d: &mut Doc, src: Nx, ev: &str, tgt: Nx, content: Block| {
+                d.nodes[src].trans.push(Trans { events: vec![ev.into()], cond: None, targets: vec![tgt], internal: false, content });
+            };
+            t(&mut d, a, "ab", b, vec![]);
+            t(&mut d, a, "ab2", b2, vec![]);
+            t(&mut d, a, "ac", c, vec![]);
+            t(&mut d, b, "ba", a, if variant >= 2 { vec![Stmt::Assign("db".into(), Expr::Int(30)), Stmt::Assign("da".into(), Expr::Int(20))] } else { vec![] });
+            t(&mut d, b1, "b12", b2, vec![Stmt::Assign("db1".into(), Expr::Str("y".into()))]);
+            t(&mut d, b2, "b21", b1, vec![]);
+            t(&mut d, c, "ca", a, vec![Stmt::Assign("dc1".into(), Expr::Int(50))]);
+            t(&mut d, c1, "cb", b, vec![]);
+            sink(Item {
+                label: format!("binding late={} variant={}", late, variant),
+                doc: d,
+                opts: Opts { max_states: 300, ..opts.clone() },
+                sig_hint: String::new(),
+            });
+        }
+    }
+}
+
+fn scenario_item(name: &str, label: &str) -> Item {
+    Item {
+        label: format!("scenario {} {}", name, label),
+        doc: Doc::new(),
+        opts: Opts { scenario: Some(name.to_string()), ..Opts::default() },
+        sig_hint: String::new(),
+    }
+}
+
 fn families(ctx: &Ctx, sink: Sink) {
     let thorough = ctx.thorough();
     match ctx.prop.as_str() {
@@ -501,7 +881,358 @@ fn families(ctx: &Ctx, sink: Sink) {
             let o = Opts::default();
             family_descriptors(thorough, &o, sink);
         }
+        "C09" => {
+            let o = Opts::default();
+            family_in_marks(if thorough { 4 } else { 3 }, &o, sink);
+            family_in_guards(if thorough { 4 } else { 3 }, "rfsm-expression", &o, sink);
+            family_in_guards(if thorough { 4 } else { 3 }, "null", &o, sink);
+            family_binding(&o, sink);
+            sink(scenario_item("event-fields", ""));
+            sink(scenario_item("readonly", ""));
+        }
+        "C08" => {
+            let o = Opts {
+                extra_events: vec![],
+                max_states: 40,
+                ..Opts::default()
+            };
+            family_content(thorough, &o, sink);
+        }
         _ => panic!("e1: unknown property {}", ctx.prop),
+    }
+}
+
+// ------------------------------------------------------------------------------------------ scenarios
+
+use rufsm::datamodel::Data;
+use rufsm::fsm::{Event, EventType, ParamPair};
+use vh::rec::{EvInfo, Rec};
+use vh::runner::{take_panics, Run, Wait};
+
+const XMLNS: &str = "xmlns=\"http://www.w3.org/2005/07/scxml\" version=\"1.0\"";
+
+fn ev_with(name: &str, params: Option<Vec<(&str, Data)>>, content: Option<Data>, sendid: Option<&str>, origin: Option<&str>, otype: Option<&str>) -> Event {
+    Event {
+        name: name.to_string(),
+        etype: EventType::external,
+        sendid: sendid.map(|x| x.to_string()),
+        origin: origin.map(|x| x.to_string()),
+        origin_type: otype.map(|x| x.to_string()),
+        invoke_id: None,
+        param_values: params.map(|v| v.into_iter().map(|(k, d)| ParamPair::new(k, &d)).collect()),
+        content,
+    }
+}
+
+fn opt_show(o: &Option<String>) -> String {
+    o.clone().unwrap_or_else(|| "null".to_string())
+}
+
+/// C09: _event exposes the fields of the event being processed, unchanged (reference-free oracle:
+/// the values read through _event are compared with the event object the interpreter received).
+fn scenario_event_fields(ctx: &Ctx, out: &mut WorkerOut, index: usize) {
+    let fields = ["name", "type", "sendid", "origin", "origintype", "invokeid"];
+    let mut marks = String::new();
+    for f in fields {
+        marks.push_str(&format!("<log expr=\"mark('f','{}',_event.{})\"/>", f, f));
+    }
+    let xml = format!(
+        r##"<scxml {ns} datamodel="rfsm-expression" name="evf">
+<datamodel><data id="v" expr="41"/></datamodel>
+<parallel id="p">
+ <state id="obs"><transition event="*">{marks}</transition></state>
+ <state id="gen">
+  <transition event="gen.raise"><raise event="int.raised"/></transition>
+  <transition event="gen.sendint"><send event="int.sent" target="#_internal"><param name="p" expr="v + 1"/></send></transition>
+  <transition event="gen.self"><send event="ext.self" id="sid7"><param name="p" expr="v + 1"/><param name="q" expr="'a b'"/></send></transition>
+  <transition event="gen.content"><send event="ext.content"><content expr="'c' + v"/></send></transition>
+  <transition event="gen.err"><assign location="nodecl" expr="1"/></transition>
+  <transition event="h.params ext.self int.sent"><log expr="mark('d','p',_event.data.p)"/></transition>
+  <transition event="h.params ext.self"><log expr="mark('d','q',_event.data.q)"/></transition>
+  <transition event="h.content ext.content"><log expr="mark('d','data',_event.data)"/></transition>
+ </state>
+</parallel>
+</scxml>"##,
+        ns = XMLNS,
+        marks = marks
+    );
+    let events: Vec<Event> = vec![
+        ev_with("h.plain", None, None, None, None, None),
+        ev_with("h.ids", None, None, Some("hs1"), Some("#_scxml_77"), Some("http://www.w3.org/TR/scxml/#SCXMLEventProcessor")),
+        ev_with("h.params", Some(vec![("p", Data::Integer(5)), ("q", Data::String("x y".into()))]), None, Some("s2"), None, None),
+        ev_with("h.content", None, Some(Data::String("body text".into())), None, None, None),
+        ev_with("h.content", None, Some(Data::Integer(12)), None, None, None),
+        ev_with("gen.raise", None, None, None, None, None),
+        ev_with("gen.sendint", None, None, None, None, None),
+        ev_with("gen.self", None, None, None, None, None),
+        ev_with("gen.content", None, None, None, None, None),
+        ev_with("gen.err", None, None, None, None, None),
+        ev_with("\u{e9}.\u{4e2d}", None, None, Some(""), None, None),
+    ];
+    let mut run = match Run::start(&xml, std::time::Duration::from_secs(20)) {
+        Ok(r) => r,
+        Err(e) => {
+            out.violation(ctx, "scenario-start", "scenario-start", &format!("{:?}", e), json!({"engine":"e1","index": index, "xml": xml}));
+            return;
+        }
+    };
+    out.add("runs", 1);
+    let mut idle = 1;
+    let mut ok = run.wait_idle(idle) == Wait::Idle;
+    // self-sent external events add idle points: wait until the log is quiet by counting expected dequeues
+    for e in &events {
+        if !ok {
+            break;
+        }
+        run.send(e.clone());
+        idle += 1;
+        if e.name == "gen.self" || e.name == "gen.content" {
+            idle += 1;
+        }
+        ok = run.wait_idle(idle) == Wait::Idle;
+    }
+    let recs = run.log.snapshot();
+    if !ok {
+        out.violation(ctx, "session-stops-responding", "event-fields:no-idle", &format!("{:?} {:?}", take_panics(), recs.len()), json!({"engine":"e1","index": index, "xml": xml}));
+        run.finish();
+        return;
+    }
+    // walk the records: after each received event, the marks must show its fields
+    let mut cur: Option<EvInfo> = None;
+    let mut seen_events = 0;
+    let mut checked = 0u64;
+    for (_, r) in &recs {
+        match r {
+            Rec::XRecv(e) | Rec::IRecv(e) => {
+                cur = Some(e.clone());
+                seen_events += 1;
+            }
+            Rec::Mark { args, .. } => {
+                let e = match &cur {
+                    Some(e) => e,
+                    None => continue,
+                };
+                if args.len() == 3 && args[0] == "f" {
+                    let exp = match args[1].as_str() {
+                        "name" => e.name.clone(),
+                        "type" => e.etype.clone(),
+                        "sendid" => opt_show(&e.sendid),
+                        "origin" => opt_show(&e.origin),
+                        "origintype" => opt_show(&e.origintype),
+                        _ => opt_show(&e.invokeid),
+                    };
+                    checked += 1;
+                    if exp != args[2] {
+                        out.violation(
+                            ctx,
+                            "event-field-differs",
+                            &format!("event-fields:{}", args[1]),
+                            &format!("while processing event {:?}: _event.{} reads {:?}, the event carries {:?}", e.name, args[1], args[2], exp),
+                            json!({"engine":"e1","index": index, "xml": xml}),
+                        );
+                    }
+                } else if args.len() == 3 && args[0] == "d" {
+                    let exp = if args[1] == "data" {
+                        e.content.clone().unwrap_or_else(|| "null".into())
+                    } else {
+                        e.params
+                            .as_ref()
+                            .and_then(|p| p.iter().find(|(k, _)| *k == args[1]).map(|(_, v)| v.clone()))
+                            .unwrap_or_else(|| "<absent>".into())
+                    };
+                    checked += 1;
+                    if exp != args[2] {
+                        out.violation(
+                            ctx,
+                            "event-data-differs",
+                            &format!("event-fields:data:{}", args[1]),
+                            &format!("while processing event {:?}: _event.data{} reads {:?}, the event carries {:?}", e.name, if args[1] == "data" { "".to_string() } else { format!(".{}", args[1]) }, args[2], exp),
+                            json!({"engine":"e1","index": index, "xml": xml}),
+                        );
+                    }
+                }
+            }
+            _ => {}
+        }
+    }
+    // expected event population: all host events, the raised / sent ones and error.execution
+    let names: Vec<String> = recs
+        .iter()
+        .filter_map(|(_, r)| match r {
+            Rec::XRecv(e) | Rec::IRecv(e) => Some(e.name.clone()),
+            _ => None,
+        })
+        .collect();
+    for must in ["int.raised", "int.sent", "ext.self", "ext.content", "error.execution"] {
+        if !names.iter().any(|n| n == must) {
+            out.violation(ctx, "event-missing", &format!("event-fields:missing:{}", must), &format!("event {} was never processed: {:?}", must, names), json!({"engine":"e1","index": index, "xml": xml}));
+        }
+    }
+    out.add("states", seen_events as u64);
+    out.add("edges", seen_events as u64);
+    out.add("ref_comparisons", checked);
+    out.outcomes.insert(format!("event-fields|{}", seen_events));
+    if run.finish() {
+        out.violation(ctx, "session-thread-panicked", "event-fields:panic", &format!("{:?}", take_panics()), json!({"engine":"e1","index": index, "xml": xml}));
+    }
+}
+
+/// C09: system variables can not be modified: every attempt raises error.execution and changes nothing.
+fn scenario_readonly(ctx: &Ctx, out: &mut WorkerOut, index: usize) {
+    let attempts: Vec<(&str, String)> = vec![
+        ("none", "".into()),
+        ("assign:_sessionid", "<assign location=\"_sessionid\" expr=\"7\"/>".into()),
+        ("assign:_name", "<assign location=\"_name\" expr=\"'x'\"/>".into()),
+        ("assign:_ioprocessors", "<assign location=\"_ioprocessors\" expr=\"1\"/>".into()),
+        ("assign:_event", "<assign location=\"_event\" expr=\"1\"/>".into()),
+        ("assign:_event.name", "<assign location=\"_event.name\" expr=\"'hacked'\"/>".into()),
+        ("assign:_event.type", "<assign location=\"_event.type\" expr=\"'hacked'\"/>".into()),
+        ("assign:_event.sendid", "<assign location=\"_event.sendid\" expr=\"'hacked'\"/>".into()),
+        ("assign:_event.origin", "<assign location=\"_event.origin\" expr=\"'hacked'\"/>".into()),
+        ("assign:_event.origintype", "<assign location=\"_event.origintype\" expr=\"'hacked'\"/>".into()),
+        ("assign:_event.invokeid", "<assign location=\"_event.invokeid\" expr=\"'hacked'\"/>".into()),
+        ("assign:_event.data", "<assign location=\"_event.data\" expr=\"'hacked'\"/>".into()),
+        ("script:_sessionid", "<script>_sessionid = 7</script>".into()),
+        ("script:_name", "<script>_name = 'x'</script>".into()),
+        ("script:_event.name", "<script>_event.name = 'hacked'</script>".into()),
+        ("script:_event", "<script>_event = 1</script>".into()),
+        ("script:_ioprocessors", "<script>_ioprocessors = 1</script>".into()),
+        ("script-init:_sessionid", "<script>_sessionid ?= 7</script>".into()),
+        ("script-init:_event.name", "<script>_event.name ?= 'hacked'</script>".into()),
+    ];
+    let mut trans = String::new();
+    for (i, (_, a)) in attempts.iter().enumerate() {
+        trans.push_str(&format!("<transition event=\"a{}\" target=\"t\">{}</transition>\n", i, a));
+    }
+    let xml = format!(
+        r#"<scxml {ns} datamodel="rfsm-expression" name="thename">
+<state id="s">{trans}</state>
+<state id="t">
+ <onentry>
+  <log expr="mark('rb','_sessionid',_sessionid)"/>
+  <log expr="mark('rb','_name',_name)"/>
+  <log expr="mark('rb','_event.name',_event.name)"/>
+  <log expr="mark('rb','_event.type',_event.type)"/>
+  <log expr="mark('rb','_event.sendid',_event.sendid)"/>
+  <log expr="mark('rb','_event.origin',_event.origin)"/>
+  <log expr="mark('rb','_event.data',_event.data)"/>
+  <log expr="mark('rb','_ioprocessors', isDefined(_ioprocessors.scxml.location))"/>
+ </onentry>
+ <transition event="back" target="s"/>
+</state>
+</scxml>"#,
+        ns = XMLNS,
+        trans = trans
+    );
+    let mut run = match Run::start(&xml, std::time::Duration::from_secs(20)) {
+        Ok(r) => r,
+        Err(e) => {
+            out.violation(ctx, "scenario-start", "scenario-start", &format!("{:?}", e), json!({"engine":"e1","index": index, "xml": xml}));
+            return;
+        }
+    };
+    out.add("runs", 1);
+    let mut idle = 1;
+    let mut ok = run.wait_idle(idle) == Wait::Idle;
+    let mut spans: Vec<(usize, usize)> = vec![];
+    for i in 0..attempts.len() {
+        if !ok {
+            break;
+        }
+        let from = run.log.len();
+        run.send(ev_with(&format!("a{}", i), None, Some(Data::String("payload".into())), Some("sid"), Some("orig"), None));
+        idle += 1;
+        ok = run.wait_idle(idle) == Wait::Idle;
+        spans.push((from, run.log.len()));
+        if ok {
+            run.send_name("back");
+            idle += 1;
+            ok = run.wait_idle(idle) == Wait::Idle;
+        }
+    }
+    let recs = run.log.snapshot();
+    if !ok {
+        out.violation(ctx, "session-stops-responding", "readonly:no-idle", &format!("{:?}", take_panics()), json!({"engine":"e1","index": index, "xml": xml}));
+        run.finish();
+        return;
+    }
+    let readback = |from: usize, to: usize| -> Vec<(String, String)> {
+        recs[from..to]
+            .iter()
+            .filter_map(|(_, r)| match r {
+                Rec::Mark { args, .. } if args.len() == 3 && args[0] == "rb" => Some((args[1].clone(), args[2].clone())),
+                _ => None,
+            })
+            .collect()
+    };
+    let errors = |from: usize, to: usize| -> usize {
+        recs[from..to]
+            .iter()
+            .filter(|(_, r)| matches!(r, Rec::IRecv(e) if e.name == "error.execution"))
+            .count()
+    };
+    let base = readback(spans[0].0, spans[0].1);
+    let mut checked = 0u64;
+    if base.len() != 8 || errors(spans[0].0, spans[0].1) != 0 {
+        out.violation(ctx, "scenario-baseline", "readonly:baseline", &format!("baseline read-back incomplete: {:?}", base), json!({"engine":"e1","index": index, "xml": xml}));
+    }
+    for (i, (name, _)) in attempts.iter().enumerate().skip(1) {
+        let (f, t) = spans[i];
+        let rb = readback(f, t);
+        let ne = errors(f, t);
+        checked += 1;
+        let kind = name.to_string();
+        if ne != 1 {
+            out.violation(
+                ctx,
+                "write-to-system-variable-no-error",
+                &format!("readonly:{}:errors={}", kind, ne),
+                &format!("attempt {} raised {} error.execution events (expected exactly 1)", name, ne),
+                json!({"engine":"e1","index": index, "xml": xml, "attempt": name}),
+            );
+        }
+        // read-back must equal the baseline, except the event name which is this attempt's event
+        for (k, v) in &rb {
+            let exp = if k == "_event.name" {
+                format!("a{}", i)
+            } else {
+                base.iter().find(|(bk, _)| bk == k).map(|x| x.1.clone()).unwrap_or_default()
+            };
+            if *v != exp {
+                out.violation(
+                    ctx,
+                    "system-variable-modified",
+                    &format!("readonly:{}:modified:{}", kind, k),
+                    &format!("after attempt {}: {} reads {:?}, expected {:?}", name, k, v, exp),
+                    json!({"engine":"e1","index": index, "xml": xml, "attempt": name}),
+                );
+            }
+        }
+        if rb.len() != base.len() {
+            out.violation(
+                ctx,
+                "system-variable-unreadable",
+                &format!("readonly:{}:readback-incomplete", kind),
+                &format!("after attempt {}: read-back {:?}", name, rb),
+                json!({"engine":"e1","index": index, "xml": xml, "attempt": name}),
+            );
+        }
+    }
+    out.add("states", attempts.len() as u64);
+    out.add("edges", (attempts.len() * 2) as u64);
+    out.add("ref_comparisons", checked);
+    out.outcomes.insert(format!("readonly|{}", attempts.len()));
+    if run.finish() {
+        out.violation(ctx, "session-thread-panicked", "readonly:panic", &format!("{:?}", take_panics()), json!({"engine":"e1","index": index, "xml": xml}));
+    }
+}
+
+fn run_scenario(ctx: &Ctx, out: &mut WorkerOut, index: usize, name: &str, _label: &str) {
+    out.add("documents", 1);
+    match name {
+        "event-fields" => scenario_event_fields(ctx, out, index),
+        "readonly" => scenario_readonly(ctx, out, index),
+        _ => panic!("unknown scenario {}", name),
     }
 }
 
@@ -539,6 +1270,10 @@ fn worker(ctx: &Ctx) {
         }
         if let Some(o) = &ctx.out {
             let _ = std::fs::write(format!("{}.progress", o), format!("{} {}", my, item.label));
+        }
+        if let Some(sc) = &item.opts.scenario {
+            run_scenario(ctx, &mut out, my, sc, &item.label);
+            return;
         }
         let mut ex = Explorer::new(&item.doc, item.opts.clone());
         ex.sig_hint = item.sig_hint.clone();
@@ -666,6 +1401,14 @@ fn main() {
         ),
         "C07" => (
             "every kinded state tree up to the bound that contains final states, with donedata variants (none / params / content), observers for done.state events in every state, every candidate transition on its own event, the platform cancel event sent from every reachable state, and burst delivery (events queued behind the one that reaches the top-level final); traces, final configuration and done events compared with the reference",
+            common_assume.clone(),
+        ),
+        "C08" => (
+            "content blocks hosted in onentry, onexit, transition, <initial>, history default and a compound state's onentry of a five-state skeleton: every leaf kind (mark, raise, assign to declared / undeclared / read-only location, assign with erroring value, log, script, erroring mark argument, send #_internal), every if / if-else / if-elseif(-else) over conditions {true, false, error} x sub-block menu, every foreach over {[], [x], [x,y], erroring expression, non-array} x sub-blocks x with/without index, single and framed by marks, every ordered pair of leaves (thorough: depth-2 nestings with an error at each level); complete reachable graph over events go/back/hist; marks, internal events (error.execution, raised events) and data values compared with the reference executor on every edge",
+            common_assume.clone(),
+        ),
+        "C09" => (
+            "In(x) for every state x evaluated by a mark in every onentry, onexit and transition body of every kinded state tree up to the bound with every candidate transition (complete reachable graphs, values compared with the reference configuration at that content position); In(x)/!In(x) guards on the candidate transitions for rfsm-expression and the null data model; early and late binding with data at root, state, nested and parallel levels, re-entry and modification; scripted scenarios: the fields of _event read back for host events with params / content / ids, raised, #_internal-sent, self-sent and platform events (compared with the received event object), and 18 write attempts on _sessionid, _name, _ioprocessors, _event and its fields through <assign> and <script> (each must raise exactly one error.execution and change nothing)",
             common_assume.clone(),
         ),
         "C19" => (
